@@ -25,6 +25,7 @@ mod tetris;
 mod tetris2;
 mod misc;
 mod serde18;
+mod layers;
 
 use serde_json::Value;
 
@@ -41,6 +42,7 @@ pub fn commands() -> Vec<(&'static str, CmdFn)> {
     v.extend(rawcmds::commands());
     v.extend(tetris::commands());
     v.extend(misc::commands());
+    v.extend(layers::commands());
     v
 }
 
